@@ -735,6 +735,9 @@ def all_paths_err(body, start, avoid=()):
     if oks:
         return False
     errs = set(err_return_blocks(body, reach))
+    if avoid and not errs:
+        # with an avoid set "no return reachable" would hold vacuously (the path just re-enters a loop): not an error path
+        return False
     # each exit path must pass an err block: remove err blocks and see whether a return is reachable
     r2 = body.reachable_from(start, avoid=set(avoid) | errs)
     for b in r2:
@@ -1052,3 +1055,30 @@ def const_folded_reachable(body):
             if s not in seen:
                 st.append(s)
     return seen
+
+
+def follow_const_bool(body, bb, limit=4):
+    """`matches!(x, P)` lowers to `arm: tmp = const true/false; goto J` and `J: switch tmp`: starting in such an arm,
+    return the block the join's switch takes for that constant (else bb itself)"""
+    cur = bb
+    for _ in range(limit):
+        t = body.term(cur)
+        if t['k'] != 'goto':
+            return cur
+        consts = {}
+        for s in body.stmts(cur):
+            if 'assign' in s and not s['assign'].get('p') and s['rv']['k'] == 'use' and 'const' in s['rv']['op']:
+                v = const_int(s['rv']['op'])
+                if v is not None:
+                    consts[s['assign']['l']] = v
+        j = t['target']
+        tj = body.term(j)
+        if tj['k'] == 'switch' and not body.stmts(j):
+            p = op_place(tj['op'])
+            if p is not None and not p.get('p') and p['l'] in consts:
+                v = consts[p['l']]
+                tg = [x['bb'] for x in tj['targets'] if x['v'] == v]
+                cur = tg[0] if tg else tj['otherwise']
+                continue
+        return cur
+    return cur
